@@ -142,6 +142,14 @@ impl Node {
             .run_outbound_stream(ctx, peer, zksync_concurrency::net::Host(addr.to_string()))
             .await
     }
+    /// The real block fetcher loop of the node.
+    pub async fn run_block_fetcher(&self, ctx: &ctx::Ctx) {
+        self.0.run_block_fetcher(ctx).await
+    }
+    /// Block numbers currently waiting in the node's fetch queue (not handed to any peer).
+    pub fn requested_blocks(&self) -> Vec<u64> {
+        self.0.fetch_queue.current_blocks()
+    }
     pub fn inbound(&self) -> Vec<node::PublicKey> {
         self.0.inbound.current().keys().cloned().collect()
     }
